@@ -458,6 +458,12 @@ class SigmaRuleBase:
             d["date"] = self.date.isoformat()
         if self.modified is not None:
             d["modified"] = self.modified.isoformat()
+        if self.related is not None and len(self.related.related) > 0:
+            d["related"] = [
+                {"id": str(item.id), "type": str(item.type)} for item in self.related.related
+            ]
+        if self.license is not None:
+            d["license"] = str(self.license)
 
         # custom attributes
         d.update(self.custom_attributes)
